@@ -37,6 +37,10 @@ def families(run, rng, quick):
     # (the sample always holds declarations of the listed known finding, so that it is re-examined on every run)
     big = [c for c in cs if _uses_big_u64_number(c)][:2]
     out.append(("ranges", big + [c for c in take(cs) if not _uses_big_u64_number(c) or c not in big], "Trace_Ranges", "Trace_Ranges.cfg", {}))
+    # numbers as values (module Numbers): every spelling of a number, in every format, shows the number's plain decimal expansion;
+    # the edge cases (what no reader can hold) are part of the sample on every run, they carry the listed known findings
+    cs, _ = loadfam.gen_cases(run, "MC_Numbers", "MC_Numbers.cfg", workers=1)
+    out.append(("numbers", cs, "Trace_Fk", "Trace_Fk.cfg", {"ORACLE": oracle}))
     vs, _ = loadfam.gen_cases(run, "MC_Value", "MC_Value_quick.cfg")
     out.append(("values", c01.project_cases(run, take(vs), per_project=60), "Trace_Value", "Trace_Value.cfg", {}))
     return out
@@ -54,6 +58,9 @@ def _key(name, fmt, seed, c, r):
     tag = sorted(r["tags"])[0]
     if name == "ranges" and fmt == "json5" and tag == "must-accept-got-Err" and _uses_big_u64_number(c):
         return "ranges;json5;u64-count-written-as-number-above-i64-max"
+    if name == "numbers" and (c.get("abs") or {}).get("cls"):
+        # an edge case of module Numbers: identified by the format's reader, the class and the token itself
+        return "numbers;%s;%s;%s;%s" % ("yaml" if fmt == "yaml2" else fmt, c["abs"]["cls"], vp.text_of(c["abs"]["tok"]), tag.split(":")[0])
     return "%s;%s;perm=%s;%s;%s" % (name, fmt, "none" if seed is None else "seeded", vp.fingerprint(c.get("abs")), tag)
 
 
